@@ -58,14 +58,24 @@ type sessionServer struct {
 	mu      sync.Mutex
 	outcome string
 	name    string
+	other   string // the name the "ok-other-name" profile carries
+	id      string // undashed profile id, unique per session
 	reqs    []sessReq
 }
 
-func (s *sessionServer) set(outcome, name string) {
+// set scripts the outcome for one login session. Every session gets its own profile id and
+// its own names, so that events, registry entries and join requests can be attributed to the
+// session that caused them: Gate fires PostLogin asynchronously and unregisters a player
+// during teardown, i.e. possibly after the next session has started.
+func (s *sessionServer) set(outcome, name, other, id string) {
 	s.mu.Lock()
-	s.outcome, s.name, s.reqs = outcome, name, nil
+	s.outcome, s.name, s.other, s.id, s.reqs = outcome, name, other, id, nil
 	s.mu.Unlock()
 }
+
+// otherName and profileID derive the per-session identities from the session index.
+func otherName(i int) string { return fmt.Sprintf("N%d", i) }
+func profileID(i int) string { return fmt.Sprintf("069a79f444e94726a5befca9%08x", i+1) }
 
 func (s *sessionServer) requests() []sessReq {
 	s.mu.Lock()
@@ -77,17 +87,17 @@ func (s *sessionServer) RoundTrip(req *http.Request) (*http.Response, error) {
 	q := req.URL.Query()
 	s.mu.Lock()
 	s.reqs = append(s.reqs, sessReq{q.Get("serverId"), q.Get("username"), q.Get("ip")})
-	outcome, name := s.outcome, s.name
+	outcome, name, other, id := s.outcome, s.name, s.other, s.id
 	s.mu.Unlock()
 	mk := func(code int, body string) (*http.Response, error) {
 		return &http.Response{StatusCode: code, Status: fmt.Sprint(code), Body: io.NopCloser(strings.NewReader(body)), Header: http.Header{}, Request: req}, nil
 	}
-	profile := fmt.Sprintf(`{"id":"069a79f444e94726a5befca90e38aaf5","name":%q,"properties":[]}`, name)
+	profile := fmt.Sprintf(`{"id":%q,"name":%q,"properties":[]}`, id, name)
 	switch outcome {
 	case "ok":
 		return mk(200, profile)
 	case "ok-other-name":
-		return mk(200, `{"id":"069a79f444e94726a5befca90e38aaf5","name":"Notch","properties":[]}`)
+		return mk(200, fmt.Sprintf(`{"id":%q,"name":%q,"properties":[]}`, id, other))
 	case "200-empty":
 		return mk(200, "")
 	case "204":
@@ -99,7 +109,7 @@ func (s *sessionServer) RoundTrip(req *http.Request) (*http.Response, error) {
 	case "malformed":
 		return mk(200, `{"id": 12, "name": [`)
 	case "no-name":
-		return mk(200, `{"id":"069a79f444e94726a5befca90e38aaf5"}`)
+		return mk(200, fmt.Sprintf(`{"id":%q}`, id))
 	case "neterr":
 		return nil, fmt.Errorf("dial tcp: connection refused")
 	}
@@ -125,12 +135,12 @@ type op struct {
 }
 
 type scenario struct {
-	Protocol int    `json:"protocol"`
-	Name     string `json:"name"`
-	PreLogin string `json:"prelogin"`
-	Session  string `json:"session_outcome"`
-	Ops      []op   `json:"ops"`
-	PreventProxy bool `json:"prevent_proxy_connections"`
+	Protocol     int    `json:"protocol"`
+	Name         string `json:"name"`
+	PreLogin     string `json:"prelogin"`
+	Session      string `json:"session_outcome"`
+	Ops          []op   `json:"ops"`
+	PreventProxy bool   `json:"prevent_proxy_connections"`
 }
 
 func TestC08(t *testing.T) {
@@ -228,8 +238,10 @@ func TestC08(t *testing.T) {
 			h, ctl, rec = hB, ctlB, recB
 		}
 		ctl.set(sc.PreLogin)
-		ss.set(sc.Session, sc.Name)
+		otherNm := otherName(i)
+		ss.set(sc.Session, sc.Name, otherNm, profileID(i))
 		rec.reset()
+		mine := func(name string) bool { return name == sc.Name || name == otherNm }
 
 		c := h.NewClient(e2e.ClientOpts{Protocol: proto.Protocol(sc.Protocol)})
 		var erSeen *packet.EncryptionRequest
@@ -402,9 +414,16 @@ func TestC08(t *testing.T) {
 		// ---- observations
 		gotSuccess := c.GotLoginSuccess()
 		// a registered player or login events are admissions even if the client saw nothing
-		evs := rec.list()
+		// only this session's events: a late PostLogin of an earlier session carries that
+		// session's names
+		var evs []string
+		for _, e := range rec.list() {
+			if k := strings.IndexByte(e, ':'); k >= 0 && mine(e[k+1:]) {
+				evs = append(evs, e)
+			}
+		}
 		registered := false
-		for _, nm := range []string{sc.Name, "Notch"} {
+		for _, nm := range []string{sc.Name, otherNm} {
 			if p := h.P.PlayerByName(nm); p != nil && !c.EOF() {
 				registered = true
 			}
@@ -416,7 +435,12 @@ func TestC08(t *testing.T) {
 			}
 		}
 		admitted := gotSuccess || evAdmit || registered
-		reqs := ss.requests()
+		var reqs []sessReq
+		for _, q := range ss.requests() {
+			if q.Username == sc.Name { // join checks carry the username the client sent
+				reqs = append(reqs, q)
+			}
+		}
 		wit := func() map[string]any {
 			return map[string]any{"scenario": sc, "client_log": fmt.Sprint(c.Log()), "events": evs, "session_requests": reqs, "login_success": gotSuccess, "registered": registered}
 		}
@@ -480,7 +504,7 @@ func TestC08(t *testing.T) {
 		c.WaitEOF(5 * time.Second)
 		// the proxy unregisters the player during teardown, shortly after closing its end
 		for dl := time.Now().Add(5 * time.Second); time.Now().Before(dl); {
-			if h.P.PlayerByName(sc.Name) == nil && h.P.PlayerByName("Notch") == nil {
+			if h.P.PlayerByName(sc.Name) == nil && h.P.PlayerByName(otherNm) == nil {
 				break
 			}
 			time.Sleep(100 * time.Microsecond)
